@@ -70,6 +70,10 @@ func (s *c06Sess) live(now int) bool { return s.exists && !s.inval && !s.swept &
 // runs single-threaded (Workers: 1), one world at a time.
 var c06SrvCache *security.SessionCache
 
+// c06SrvNever: the servers' own policy is NEVER for encryption and integrity (they hold keyed
+// sessions made another way - claim sessions - whose key must be applied all the same).
+var c06SrvNever bool
+
 func c06ServerCfg(cipher security.CryptoMethod, enc security.SecurityLevel) *security.SecurityConfig {
 	c := baseCfg(security.SecurityRequired, enc, []security.AuthMethod{mCTB}, []security.CryptoMethod{cipher}, true)
 	c.SessionCache = c06SrvCache
@@ -84,6 +88,9 @@ func c06ServerCfg(cipher security.CryptoMethod, enc security.SecurityLevel) *sec
 		}
 	}
 	c.SessionDuration, c.SessionLease = c06Duration, c06Lease
+	if c06SrvNever {
+		c.Encryption, c.Integrity = security.SecurityNever, security.SecurityNever
+	}
 	return c
 }
 
@@ -621,7 +628,11 @@ func c06Replay(hist []string, res *vlib.Result, layout int) *c06World {
 		c06SrvCache = security.NewSessionCache()
 		w.hist = "servers with a SessionCache of their own: " + w.hist
 	}
-	if layout == 2 || layout == 3 {
+	c06SrvNever = layout == 4
+	if c06SrvNever {
+		w.hist = "(servers whose own policy is Encryption=NEVER, Integrity=NEVER) " + w.hist
+	}
+	if layout == 2 || layout == 3 || layout == 4 {
 		w.claim = true
 		w.hist = "keyed session minted/imported as a claim session: " + w.hist
 	}
@@ -692,7 +703,7 @@ func c06BFS(depth int, res *vlib.Result, layout int) {
 func C06Plan() *vlib.Plan {
 	p := &vlib.Plan{
 		Property: "C06", Level: "model_checking", Workers: 1,
-		Rule:   "E-BFS on the real server resumption path. Events: establish a keyed session (real handshake), establish a key-less session (no common cipher), scripted resumption with the right id+key from another address, legitimate client resumption, advance virtual time by lease/2, lease+60, duration+60, invalidate K / L, sweep expired. A state is the event history replayed on a cleared cache; canonical key = (status and remaining-lifetime bucket of K and L, client still holds K, replay recorded). In EVERY state a battery of scripted requests is fired: {K, L, unknown id} x {wrong key, no key} x {reply requested, not} x {same, different source address}, every single-character alteration of a live id (once), and byte-for-byte replays (whole and truncated at every frame boundary) of a recorded legitimate resumed connection. The whole search runs four times: with the keyed session minted/imported as a claim session (inherited flag, finite lifetime, no lease) instead of negotiated, once with the default policy and once minted with Encryption and Integrity off (it still carries a key, and a resumed connection is protected by it); servers on the package-global cache, and servers configured with a SessionCache of their own and an identity-mapping PostAuthPolicy (sessions are invalidated through the package API, swept in both). Plus late imports: a claim id whose embedded deadline lies {20 years, a day, an hour, 2 min} in the past, {2 min, an hour} ahead or is absent x importer fallback duration {none, 1 h} x {imported once, twice} is registered on the server and then resumed by a requester holding id and key: resumed iff the deadline has not passed. Oracle = reference map id -> {key?, expiry, invalidated}. traces = states replayed; transitions = events + probes executed.",
+		Rule:   "E-BFS on the real server resumption path. Events: establish a keyed session (real handshake), establish a key-less session (no common cipher), scripted resumption with the right id+key from another address, legitimate client resumption, advance virtual time by lease/2, lease+60, duration+60, invalidate K / L, sweep expired. A state is the event history replayed on a cleared cache; canonical key = (status and remaining-lifetime bucket of K and L, client still holds K, replay recorded). In EVERY state a battery of scripted requests is fired: {K, L, unknown id} x {wrong key, no key} x {reply requested, not} x {same, different source address}, every single-character alteration of a live id (once), and byte-for-byte replays (whole and truncated at every frame boundary) of a recorded legitimate resumed connection. The whole search runs five times: with the keyed session minted/imported as a claim session (inherited flag, finite lifetime, no lease) instead of negotiated, once with the default policy, once minted with Encryption and Integrity off, once held by servers whose own policy is Encryption NEVER / Integrity NEVER (it still carries a key, and a resumed connection is protected by it); servers on the package-global cache, and servers configured with a SessionCache of their own and an identity-mapping PostAuthPolicy (sessions are invalidated through the package API, swept in both). Plus late imports: a claim id whose embedded deadline lies {20 years, a day, an hour, 2 min} in the past, {2 min, an hour} ahead or is absent x importer fallback duration {none, 1 h} x {imported once, twice} is registered on the server and then resumed by a requester holding id and key: resumed iff the deadline has not passed. Oracle = reference map id -> {key?, expiry, invalidated}. traces = states replayed; transitions = events + probes executed.",
 		Assume: []string{"virtual time = re-storing every cache entry with its expiration moved back (public API), margins of 60 s against real time", "single process, sequential (the server-side cache is process-global)"},
 	}
 	p.Gen = func(tier string, yield func(vlib.Case)) {
@@ -716,6 +727,13 @@ func C06Plan() *vlib.Plan {
 		yield(vlib.Case{ID: fmt.Sprintf("bfs/claim-session-enc-and-integrity-off/depth=%d", D), Run: func() *vlib.Result {
 			res := &vlib.Result{}
 			c06BFS(D, res, 3)
+			return res
+		}})
+		// ... and with the claim session held by servers whose OWN policy is NEVER / NEVER
+		yield(vlib.Case{ID: fmt.Sprintf("bfs/claim-session-at-never-never-server/depth=%d", D), Run: func() *vlib.Result {
+			res := &vlib.Result{}
+			c06BFS(D, res, 4)
+			c06SrvNever = false
 			return res
 		}})
 		c06LateCases(yield)
